@@ -4,24 +4,24 @@ import "time"
 
 var specs = map[string]propSpec{
 	"C01":       {level: "model_checking", budgetQ: 4 * time.Minute, budgetT: 40 * time.Minute},
-	"C02":       {level: "model_checking", budgetQ: 4 * time.Minute, budgetT: 40 * time.Minute},
+	"C02":       {level: "model_checking", budgetQ: 6 * time.Minute, budgetT: 75 * time.Minute},
 	"C04":       {level: "model_checking", budgetQ: 4 * time.Minute, budgetT: 40 * time.Minute},
-	"C12":       {level: "model_checking", budgetQ: 4 * time.Minute, budgetT: 40 * time.Minute},
-	"C13":       {level: "model_checking", budgetQ: 4 * time.Minute, budgetT: 40 * time.Minute},
+	"C12":       {level: "model_checking", budgetQ: 6 * time.Minute, budgetT: 90 * time.Minute},
+	"C13":       {level: "model_checking", budgetQ: 6 * time.Minute, budgetT: 60 * time.Minute},
 	"C20":       {level: "model_checking", budgetQ: 4 * time.Minute, budgetT: 40 * time.Minute},
-	"C07":       {level: "model_checking", budgetQ: 4 * time.Minute, budgetT: 40 * time.Minute},
-	"C06":       {level: "model_checking", budgetQ: 4 * time.Minute, budgetT: 40 * time.Minute},
+	"C07":       {level: "model_checking", budgetQ: 6 * time.Minute, budgetT: 60 * time.Minute},
+	"C06":       {level: "model_checking", budgetQ: 8 * time.Minute, budgetT: 75 * time.Minute},
 	"C15":       {level: "model_checking", budgetQ: 4 * time.Minute, budgetT: 40 * time.Minute},
 	"C16":       {level: "model_checking", budgetQ: 4 * time.Minute, budgetT: 40 * time.Minute},
 	"C14":       {level: "model_checking", budgetQ: 4 * time.Minute, budgetT: 40 * time.Minute},
 	"C05":       {level: "model_checking", budgetQ: 4 * time.Minute, budgetT: 40 * time.Minute},
 	"C11":       {level: "model_checking", budgetQ: 4 * time.Minute, budgetT: 40 * time.Minute},
 	"C19":       {level: "model_checking", budgetQ: 4 * time.Minute, budgetT: 40 * time.Minute},
-	"C09":       {level: "model_checking", budgetQ: 4 * time.Minute, budgetT: 40 * time.Minute},
-	"C08":       {level: "model_checking", race: true, budgetQ: 6 * time.Minute, budgetT: 40 * time.Minute},
+	"C09":       {level: "model_checking", budgetQ: 6 * time.Minute, budgetT: 90 * time.Minute},
+	"C08":       {level: "model_checking", race: true, budgetQ: 10 * time.Minute, budgetT: 100 * time.Minute},
 	"C10":       {level: "model_checking", budgetQ: 4 * time.Minute, budgetT: 40 * time.Minute},
 	"C17":       {level: "model_checking", budgetQ: 4 * time.Minute, budgetT: 40 * time.Minute},
 	"C18":       {level: "model_checking", budgetQ: 4 * time.Minute, budgetT: 40 * time.Minute},
 	"GOLDENGEN": {level: "model_checking", workers: 1},
-	"C03":       {level: "model_checking", budgetQ: 4 * time.Minute, budgetT: 40 * time.Minute},
+	"C03":       {level: "model_checking", budgetQ: 6 * time.Minute, budgetT: 60 * time.Minute},
 }
